@@ -212,14 +212,22 @@ pub fn wall_ms() -> u64 {
 
 /// Harness work inside a session (symbolising a stack): `suspend` lifts the session limit, `resume` restores
 /// it and discounts what the harness allocated meanwhile (symbol tables stay cached).
-pub fn suspend() -> (usize, usize) {
-    (LIMIT.swap(usize::MAX, Relaxed), LIVE.load(Relaxed))
+/// While set the watchdog does not look at the clock: the time belongs to the harness, not to the reader.
+static PAUSED: std::sync::atomic::AtomicBool = std::sync::atomic::AtomicBool::new(false);
+
+pub fn suspend() -> (usize, usize, u64, u64) {
+    PAUSED.store(true, Relaxed);
+    (LIMIT.swap(usize::MAX, Relaxed), LIVE.load(Relaxed), cpu_ns(), wall_ms())
 }
 
-pub fn resume(saved: (usize, usize)) {
+pub fn resume(saved: (usize, usize, u64, u64)) {
     let grown = LIVE.load(Relaxed).saturating_sub(saved.1);
     BASE.fetch_add(grown, Relaxed);
     LIMIT.store(saved.0, Relaxed);
+    // the session clock does not run while the harness works
+    CPU0.fetch_add(cpu_ns().saturating_sub(saved.2), Relaxed);
+    WALL0.fetch_add(wall_ms().saturating_sub(saved.3), Relaxed);
+    PAUSED.store(false, Relaxed);
 }
 
 /// start of a session: allocation of more than `limit` bytes beyond what is live now is refused
@@ -254,12 +262,12 @@ pub fn start_watchdog(cpu_s: u64, wall_s: u64) {
     std::thread::spawn(move || loop {
         std::thread::sleep(std::time::Duration::from_millis(100));
         let cur = CUR.load(Relaxed);
-        if cur == usize::MAX {
+        if cur == usize::MAX || PAUSED.load(Relaxed) {
             continue;
         }
         let used = cpu_ns().saturating_sub(CPU0.load(Relaxed));
         let wall = wall_ms().saturating_sub(WALL0.load(Relaxed));
-        if (used > cpu_s * 1_000_000_000 || wall > wall_s * 1000) && CUR.load(Relaxed) == cur {
+        if (used > cpu_s * 1_000_000_000 || wall > wall_s * 1000) && CUR.load(Relaxed) == cur && !PAUSED.load(Relaxed) {
             LIMIT.store(usize::MAX, Relaxed);
             mark(b'H', cur, wall as usize);
             unsafe { libc::_exit(3) };
